@@ -168,8 +168,10 @@ func (cd *CandleDuration) Truncate(ts time.Time) time.Time {
 // ts belongs to.
 func (cd *CandleDuration) Ceil(ts time.Time) time.Time {
 	if cd.suffix == "D" {
-		yy, mm, dd := ts.Add(Day).Date()
-		return time.Date(yy, mm, dd, 0, 0, 0, 0, ts.Location())
+		// the next local midnight: a local day lasts 23 or 25 hours when daylight saving
+		// starts or ends, so the day is advanced on the calendar, not by adding 24 hours
+		yy, mm, dd := ts.Date()
+		return time.Date(yy, mm, dd+1, 0, 0, 0, 0, ts.Location())
 	}
 	if cd.suffix == "M" {
 		year := ts.Year()
